@@ -128,6 +128,12 @@ Theorem Gen_strips_classified : strips_classified_b = true.
 Proof. exact gen_strips_classified. Qed.
 Print Assumptions Gen_strips_classified.
 
+(* Kustomizer.Run / KustTarget.makeCustomizedResMap / KustTarget.IgnoreLocal still call the steps of the
+   build tail in the order [finalize] models (hash names, IgnoreLocal, sort, annotation removal) *)
+Theorem Gen_tail_order : tail_order_b = true.
+Proof. exact gen_tail_order. Qed.
+Print Assumptions Gen_tail_order.
+
 Theorem Gen_requested_survive : requested_survive_b = true.
 Proof. exact gen_requested_survive. Qed.
 Print Assumptions Gen_requested_survive.
